@@ -409,12 +409,19 @@ def top(a):
     if not merged["registry_pristine"]:
         print("HARNESS-ERROR property=%s a pool worker's global registries changed: isolation broken" % pid)
         status = status or 2
-    # reach probes that must be alive
+    # reach probes.  REQUIRED_PROBES are counted by the harness alone (faults it injects, switches it performs):
+    # if one is stuck at zero the workload is broken -> HARNESS-ERROR.  EXPECTED_PROBES observe the library
+    # (scopes pushed at a suspension point, ...): a correct library that is built differently may legitimately
+    # never trip them, so a dead one is reported loudly but is not an alarm.
     dead = []
     if merged["runs"] >= 1000 and status == 0:
         for name in getattr(prop, "REQUIRED_PROBES", ()):
             if merged["stats"].get(name, 0) == 0:
                 dead.append(name)
+        quiet = [n for n in getattr(prop, "EXPECTED_PROBES", ()) if merged["stats"].get(n, 0) == 0]
+        if quiet:
+            print("WARNING property=%s reach probes at zero on this tree: %s (the states they count were not "
+                  "observed; evidence coverage is weaker than usual)" % (pid, ", ".join(quiet)))
     if dead:
         print("HARNESS-ERROR property=%s reach probes stuck at zero: %s (workload no longer reaches the states the "
               "oracle needs)" % (pid, ", ".join(dead)))
